@@ -1,8 +1,10 @@
 package checks
 
 import (
+	"encoding/base64"
 	"encoding/json"
 	"strings"
+	"unicode/utf8"
 
 	. "vharness/internal/gen"
 )
@@ -215,17 +217,37 @@ func session(stmts []T) []string {
 }
 
 type sessPayload struct {
-	Stmts []string `json:"stmts"`
+	Stmts []string `json:"stmts,omitempty"`
+	// B64: the same list when some text is not valid UTF-8 (JSON would replace the offending bytes)
+	B64 []string `json:"stmts_base64,omitempty"`
 }
 
 func payloadOf(stmts []string) string {
-	b, _ := json.Marshal(sessPayload{Stmts: stmts})
+	p := sessPayload{Stmts: stmts}
+	for _, s := range stmts {
+		if !utf8.ValidString(s) {
+			p = sessPayload{}
+			for _, t := range stmts {
+				p.B64 = append(p.B64, base64.StdEncoding.EncodeToString([]byte(t)))
+			}
+			break
+		}
+	}
+	b, _ := json.Marshal(p)
 	return string(b)
 }
 
 func stmtsOf(payload string) []string {
 	var p sessPayload
 	json.Unmarshal([]byte(payload), &p)
+	if len(p.B64) > 0 {
+		out := make([]string, len(p.B64))
+		for i, t := range p.B64 {
+			b, _ := base64.StdEncoding.DecodeString(t)
+			out[i] = string(b)
+		}
+		return out
+	}
 	return p.Stmts
 }
 
